@@ -59,8 +59,9 @@ def run(ctx):
     if not ok:
         broken.append(("proof", info))
     rng = np.random.default_rng(ctx.seed + 2)
-    target = ctx.n(24, 500)
+    target = ctx.n(48, 800)
     done = k = 0
+    shared = SBC()          # one long-lived object: results must not depend on what it did before
     contract_ok = contract_fail = 0
     bad = []
     while done < target and k < target * 8:
@@ -77,11 +78,16 @@ def run(ctx):
         ctx.count("kind_" + desc["kind"])
         try:
             with SC.FinderRecorder() as rec:
-                clusters = SBC().get_clusters(a, seed=seed)
+                clusters = shared.get_clusters(a, seed=seed)
             dims = [c.get_dimensionality() for c in clusters]
         except Exception as e:  # noqa
-            bad.append({"desc": desc, "complaint": "exception %s: %s" % (type(e).__name__, str(e)[:150]), "atoms": crystals.atoms_to_json(a)})
+            bad.append({"desc": desc, "complaint": "exception %s: %s (SBC object re-used over the samples of this run)" % (type(e).__name__, str(e)[:150]), "atoms": crystals.atoms_to_json(a)})
+            shared = SBC()
             continue
+        if done % 4 == 0:
+            fresh = SBC().get_clusters(a, seed=seed)
+            if sorted(sorted(int(i) for i in c.indices) for c in fresh) != sorted(sorted(int(i) for i in c.indices) for c in clusters):
+                bad.append({"desc": desc, "complaint": "a re-used SBC object and a fresh SBC object return different clusters for the same arguments", "atoms": crystals.atoms_to_json(a)})
         ctx.case(("c02", json.dumps(desc, sort_keys=True, default=str)), nontrivial=True, sample=desc if len(ctx.samples) < 5 else None)
         f_holds = all(c["basis"] is not None and set(c["basis"]) | {c["seed"]} == set(range(len(a))) for c in rec.calls)
         contract_ok += f_holds
